@@ -369,6 +369,7 @@ class Verifier:
 
     def run_path(self, c, fr, run, relpath, qual, fnode, ci):
         I = self.make_interp(c, fr, run, qual + (f"#{c.variant}" if getattr(c, 'variant', None) else ""))
+        I.root_fnode = fnode
         frame_locals = {}
         selfv = None
         if ci is not None and fnode.args.args and fnode.args.args[0].arg == "self":
@@ -376,6 +377,8 @@ class Verifier:
                 selfv = VRef(run.alloc(ObjRec(ci.name, {})), "obj", ci.name)
             else:
                 selfv = I.fresh(("obj", c.self_type or ci.name), "self")
+                if c.self_type:
+                    I.class_alias = {c.self_type: ci.name}      # a second typing of the same class: methods and constants are the real class's
             frame_locals["self"] = selfv
         for name, ty in self.param_types(I, c, fnode, relpath):
             frame_locals[name] = I.fresh(ty, name)
